@@ -207,6 +207,9 @@ func (p *Pipe) Stream(dir string) *stream {
 
 func (p *Pipe) TapOf(dir string) *Tap { return p.Stream(dir).Tap }
 
+// ClosedByClient: the dialing side closed its endpoint (net lock held).
+func (p *Pipe) ClosedByClient() bool { return p.C.closed }
+
 // Alive: no fault killed the connection and neither endpoint closed it
 // (call with the net lock held, e.g. between Net.Lock / Net.Unlock).
 func (p *Pipe) Alive() bool { return p.Dead == "" && !p.C.closed && !p.S.closed }
